@@ -407,9 +407,16 @@ pub fn run_check_with_context(opts: &CheckOptions<'_>) -> crate::Result<i32> {
     let exit_code =
         determine_exit_code(&results, args.warn_only, warnings_as_errors, ratchet_failed);
 
-    // 11. Auto-snapshot on successful check if enabled
+    // 11. Auto-snapshot on successful check if enabled.
+    // The history records whole-project totals, so a run that looked at a subset only
+    // (--files, --diff, --staged, or fail-fast stopping early) records nothing.
+    let partial_run = !args.files.is_empty()
+        || args.diff.is_some()
+        || args.staged
+        || failure_detected.load(Ordering::Relaxed);
     if exit_code == EXIT_SUCCESS
         && auto_snapshot_enabled
+        && !partial_run
         && let Some(ref stats) = project_stats
     {
         perform_auto_snapshot(stats, config, project_root, cli.quiet, cli.verbose);
